@@ -116,19 +116,22 @@ Build == /\ phase = "start" /\ stop = ""
          /\ \E es \in [1..n -> Ranks] :
               Settle([i \in 1..(n + 1) |-> IF i = 1 THEN <<sim[1], fsim[1]>> ELSE <<Fresh(i), es[i - 1]>>], n, "build")
 
+Call(name, j, k, e) == [labs |-> <<L(name, j)>>, p |-> Fresh(k), f |-> e]
+Apply(calls) == LET t == Tree(sim, fsim, calls) IN TreeOK(t) /\ Settle(t.pairs, Len(calls), t.br)
+
+(* TLC chooses the oracle energies: of R, then (if the tree asks for one) of the second candidate, then
+   (if the tree shrinks) of the shrunk vertices *)
 Iterate ==
   /\ phase = "run" /\ stop = ""
-  /\ \E fR \in Ranks, f2 \in Ranks, fs \in [1..n -> Ranks] :
+  /\ \E fR \in Ranks :
        LET kind == Second(fsim, fR)
-           c1 == [labs |-> <<L("R", 0)>>, p |-> Fresh(1), f |-> fR]
-           c2 == [labs |-> <<L(kind, 0)>>, p |-> Fresh(2), f |-> f2]
-           sh == [j \in 1..n |-> [labs |-> <<L("S", j)>>, p |-> Fresh(2 + j), f |-> fs[j]]]
-           two == <<c1, c2>>
-           calls == IF kind = "-" THEN <<c1>>
-                    ELSE IF Tree(sim, fsim, two \o sh).br = "shrink" THEN two \o sh ELSE two
-           t == Tree(sim, fsim, calls)
-       IN  /\ TreeOK(t)
-           /\ Settle(t.pairs, Len(calls), t.br)
+           c1 == Call("R", 0, 1, fR)
+       IN  IF kind = "-" THEN Apply(<<c1>>)
+           ELSE \E f2 \in Ranks :
+                  LET two == <<c1, Call(kind, 0, 2, f2)>> IN
+                  IF Tree(sim, fsim, two).br = "shrink"
+                  THEN \E fs \in [1..n -> Ranks] : Apply(two \o [j \in 1..n |-> Call("S", j, 2 + j, fs[j])])
+                  ELSE Apply(two)
 
 Next == Start \/ Build \/ Iterate
 Spec == Init /\ [][Next]_nmvars
